@@ -357,6 +357,30 @@ def check_close(ctx, rep, cls_qual, field):
            "is taken as non-raising)" if pe is None else
            "an error while shutting down leaves close() before the stream is marked closed",
            f.loc, witness=ctx.path(pe) if pe else None)
+    if field == "sock":
+        # an open socket is shut down in both directions before the descriptor is closed: close() alone neither wakes a
+        # thread of this process blocked in poll()/recv() on it nor ends the stream for the peer while another holder of the
+        # descriptor (a forked child) is alive
+        shut = [n for n in g.live if n.kind == "stmt" and n.ast is not None and any(
+            (A.call_name(c) or "") == "self.%s.shutdown" % field and c.args and A.src(c.args[0]).endswith("SHUT_RDWR")
+            for c in A.calls(n.ast))]
+        osclose = [n for n in g.live if n.kind == "stmt" and n.ast is not None and any(
+            (A.call_name(c) or "") == "self.%s.close" % field for c in A.calls(n.ast))]
+        sid = {n.id for n in shut}
+
+        def open_edges(a, b, l):
+            if l == "exc":
+                return False
+            if a.kind == "test" and A.src(a.ast) == "self.closed" and l == "true":
+                return False          # already closed: nothing to shut down
+            return b.id not in sid
+        pth = Q.find_path_ef([g.entry], lambda n: n in osclose, open_edges) if osclose else None
+        oks = bool(shut) and bool(osclose) and pth is None
+        rep.ob("R05.3", "%s.close: an open socket is shut down (SHUT_RDWR) before its descriptor is closed" % short, oks,
+               "shutdown(SHUT_RDWR) precedes close() on every path of a still-open stream" if oks else
+               "close() no longer shuts the socket down: a thread blocked in poll()/recv() on it is not woken and, while any "
+               "other holder of the descriptor lives (forked child), the peer never sees end-of-stream",
+               ctx.loc(osclose[0]) if osclose else f.loc, witness=ctx.path(pth) if pth else None)
     c = ctx.cls(cls_qual)
     cp = c.methods.get("closed")
     okp = cp is not None and A.src(cp.node.body[-1]).replace(" ", "") == "returnself.%sisClosedFile" % field
